@@ -230,6 +230,70 @@ theorem convert_no_panic (K : Codec) (r : Reader) (p : ConvParams) (f : Fmt)
              metaBytes := K.enc (metaComp f (declared r p)) r.tilejson, tiles := out }, ?_⟩
   simp [convertContainer, convStream, convSteps, ho]
 
+/-! ### reading the container back: zero-length blobs
+
+The full statement "every source tile can be read back" is FALSE of the code for one corner:
+a tile whose payload has length 0, written uncompressed into a versatiles or pmtiles container,
+is stored as a zero-length range, which both readers treat as "no tile".
+`readback_complete_partial` is the statement with that corner excluded (note how the law
+"compressed streams are never empty" makes every compressed target safe);
+`empty_tile_dropped` is the proved counterexample of the full statement. -/
+
+/-- formats in which a zero-length range means "absent" -/
+def zeroMeansAbsent : Fmt → Bool
+  | .versatiles => true
+  | .pmtiles => true
+  | _ => false
+
+theorem readback_complete_partial (K : Codec) (r : Reader) (p : ConvParams) (f : Fmt) (c : Container)
+    (h : convertContainer K r p f = .ok c) (t : Nat × Bytes) (ht : t ∈ r.tiles) (payload : Bytes)
+    (hpay : K.dec r.comp t.2 = some payload)
+    (hcorner : payload ≠ [] ∨ declared r p ≠ .raw ∨ zeroMeansAbsent f = false) :
+    ∃ b', (t.1, b') ∈ c.visible ∧ K.dec c.comp b' = some payload := by
+  obtain ⟨hc, hmap, _⟩ := convert_sound K r p f c h
+  have hf : c.fmt = f := by
+    unfold convertContainer at h
+    cases hs : convStream K r p with
+    | ok ts => rw [hs] at h; simp only [Res.ok.injEq] at h; subst h; rfl
+    | err => rw [hs] at h; simp at h
+    | panic s => rw [hs] at h; simp at h
+  have hmem : (t.1, K.dec r.comp t.2) ∈ r.tiles.map (fun t => (t.1, K.dec r.comp t.2)) :=
+    List.mem_map.mpr ⟨t, ht, rfl⟩
+  rw [← hmap] at hmem
+  obtain ⟨t', ht', heq⟩ := List.mem_map.mp hmem
+  simp only [Prod.mk.injEq] at heq
+  obtain ⟨h1, h2⟩ := heq
+  rw [hpay] at h2
+  refine ⟨t'.2, ?_, h2⟩
+  have hne : zeroMeansAbsent f = true → t'.2 ≠ [] := by
+    intro hz hnil
+    rw [hnil] at h2
+    by_cases hraw : c.comp = .raw
+    · rw [hraw, K.dec_raw] at h2
+      have hp : payload = [] := (Option.some.inj h2).symm
+      rcases hcorner with h | h | h
+      · exact h hp
+      · exact h (hc ▸ hraw)
+      · rw [hz] at h; cases h
+    · rw [K.dec_nil _ hraw] at h2; cases h2
+  have ht'' : (t.1, t'.2) = t' := by rw [← h1]
+  unfold Container.visible
+  rw [hf, ht'']
+  cases f with
+  | versatiles => exact List.mem_filter.mpr ⟨ht', by simpa using hne rfl⟩
+  | pmtiles => exact List.mem_filter.mpr ⟨ht', by simpa using hne rfl⟩
+  | tar => exact ht'
+  | directory => exact ht'
+  | mbtiles => exact ht'
+
+/-- counterexample of the unrestricted statement: an empty (valid!) payload converted to an
+    uncompressed versatiles container cannot be read back -/
+theorem empty_tile_dropped :
+    ∃ c, convertContainer toy { comp := .gzip, tilejson := [], tiles := [(7, toy.enc .gzip [])] }
+        { target := some .raw, force := false } .versatiles = .ok c ∧ c.visible = [] := by
+  refine ⟨_, rfl, ?_⟩
+  decide
+
 /-- the metadata law on its own: every format's metadata encoding round-trips -/
 theorem meta_roundtrip (K : Codec) (f : Fmt) (d : Comp) (m : Bytes) :
     K.dec (metaComp f d) (K.enc (metaComp f d) m) = some m := K.dec_enc _ _
